@@ -726,7 +726,9 @@ func newHist(res *Result, tp *simrt.Tape, cfg battleCfg, prop string) *histState
 		return h
 	}
 	if err != nil {
-		res.Infra = "valid battle configuration refused: " + err.Error()
+		// refusing a configuration at creation is always allowed (C04); there
+		// is nothing to explore in this case
+		res.Discard = "configuration refused at creation"
 		h.dead = true
 		return h
 	}
